@@ -105,7 +105,71 @@ func (lc *limCtx) checkedAt(v ssa.Value, b *ssa.BasicBlock) bool {
 			return true
 		}
 	}
-	return false
+	return lc.checkedOnAllPaths(v, b)
+}
+
+// checkedOnAllPaths: on every feasible acyclic path from the function's entry to block b a
+// comparison bounding v by a limit value has the outcome "within the limit".  This covers the
+// check-sets-error-then-test-error form (if n > limit { err = ... }; if err != nil { return }),
+// where no single branch dominates the use.
+func (lc *limCtx) checkedOnAllPaths(v ssa.Value, b *ssa.BasicBlock) bool {
+	fn := b.Parent()
+	if fn == nil || len(fn.Blocks) == 0 || len(b.Instrs) == 0 || len(fn.Blocks) > 120 {
+		return false
+	}
+	key := "paths:" + FuncName(fn) + ":" + itoa(b.Index) + ":" + v.Name()
+	if r, ok := lc.summaries[key]; ok {
+		return r
+	}
+	lc.summaries[key] = false
+	first := b.Instrs[0]
+	paths, ok := EnumPaths(fn.Blocks[0], nil, func(in ssa.Instruction) bool { return in == first }, 2048)
+	if !ok || len(paths) == 0 {
+		return false
+	}
+	feasible := 0
+	for _, cp := range paths {
+		if !cp.NilFeasible() {
+			continue
+		}
+		feasible++
+		within := false
+		for cond, truth := range cp.Truth {
+			bo, isBin := cond.(*ssa.BinOp)
+			if !isBin {
+				continue
+			}
+			x, y, op := bo.X, bo.Y, bo.Op
+			if !truth {
+				switch op {
+				case token.GTR:
+					op = token.LEQ
+				case token.GEQ:
+					op = token.LSS
+				case token.LSS:
+					op = token.GEQ
+				case token.LEQ:
+					op = token.GTR
+				default:
+					continue
+				}
+			}
+			if sameQuantity(y, v) {
+				x, y, op = y, x, flip(op)
+			}
+			if !sameQuantity(x, v) {
+				continue
+			}
+			if (op == token.LEQ || op == token.LSS) && lc.isLimit(y) {
+				within = true
+			}
+		}
+		if !within {
+			return false
+		}
+	}
+	lc.summaries[key] = feasible > 0
+	return feasible > 0
 }
 
 // bounded: the value is a limit, or checked against one at block b.
@@ -149,6 +213,7 @@ func (lc *limCtx) bounded(v ssa.Value, b *ssa.BasicBlock) bool {
 			}
 		case l.Kind == "load" && (lc.limFields[l.Field] || l.Field == lc.p.Field("serviceOptions", "maxMsgBufferBytes")):
 		case l.Kind == "load" && lc.checkedAt(l.V, b):
+		case l.Kind == "call" && lc.checkedAt(l.V, b):
 		case l.Kind == "param" && lc.paramBounded(l.V.(*ssa.Parameter)):
 		default:
 			return false
@@ -487,7 +552,6 @@ func runC10(c *Ctx) {
 
 	// ---------------------------------------------------------------- C10.4
 	c.Rule("C10.4", "exceeding the limit is resource_exhausted", 3)
-	sle := p.MustFunc("sizeLimitError")
 	var rex constant.Value
 	for _, pk := range p.RootPkg.Types.Imports() {
 		if pk.Path() == "connectrpc.com/connect" {
@@ -496,27 +560,40 @@ func runC10(c *Ctx) {
 			}
 		}
 	}
-	okCode := false
-	for _, call := range Calls(sle) {
-		if IsCallTo(call, "connectrpc.com/connect.NewError") {
-			if k, ok := call.Common().Args[0].(*ssa.Const); ok && rex != nil && k.Value != nil && constant.Compare(k.Value, token.EQL, rex) {
-				okCode = true
-			}
+	// the limit-error constructors are found by role: what a limit check's exceeding edge calls.
+	// Each must build (itself or through a helper) connect.NewError(CodeResourceExhausted, ...)
+	// and nothing with another code.
+	var buildsRex func(fn *ssa.Function, depth int) bool
+	buildsRex = func(fn *ssa.Function, depth int) bool {
+		if fn == nil || depth > 3 || len(fn.Blocks) == 0 {
+			return false
 		}
-	}
-	c.Check(okCode, "C10.4", FuncName(sle), "code-resource-exhausted", sle.Pos(),
-		"the size-limit error constructor uses CodeResourceExhausted", "the size-limit error is not resource_exhausted")
-	for _, name := range []string{"bufferLimitError", "contentLengthError"} {
-		fn := p.MustFunc(name)
-		ok := false
+		n, ok := 0, true
 		for _, call := range Calls(fn) {
+			if IsCallTo(call, "connectrpc.com/connect.NewError") {
+				n++
+				k, isK := call.Common().Args[0].(*ssa.Const)
+				if !isK || rex == nil || k.Value == nil || !constant.Compare(k.Value, token.EQL, rex) {
+					ok = false
+				}
+				continue
+			}
 			for _, cal := range p.CalleesAt(call) {
-				if cal == sle {
-					ok = true
+				if p.inScope(cal) && cal.Signature.Results().Len() == 1 && isErrorType(cal.Signature.Results().At(0).Type()) {
+					if buildsRex(cal, depth+1) {
+						n++
+					} else {
+						ok = false
+					}
 				}
 			}
 		}
-		c.Check(ok, "C10.4", name, "uses-size-limit-constructor", fn.Pos(), "built by the size-limit constructor", name+" no longer goes through the resource_exhausted constructor")
+		return ok && n > 0
+	}
+	for _, name := range []string{"bufferLimitError", "contentLengthError"} {
+		fn := p.MustFunc(name)
+		c.Check(buildsRex(fn, 0), "C10.4", name, "code-resource-exhausted", fn.Pos(),
+			"the limit error is built (directly or through its helper) as connect.NewError(CodeResourceExhausted, ...)", name+" does not build a resource_exhausted error")
 	}
 	seen := map[*ssa.If]bool{}
 	for _, iff := range exceedChecks {
@@ -532,8 +609,12 @@ func runC10(c *Ctx) {
 				if ci, ok := in.(ssa.CallInstruction); ok {
 					for _, cal := range p.CalleesAt(ci) {
 						switch FuncName(cal) {
-						case "bufferLimitError", "contentLengthError", "(*hardLimitReader).error", "sizeLimitError":
+						case "bufferLimitError", "contentLengthError", "(*hardLimitReader).error":
 							okErr = true
+						default:
+							if p.inScope(cal) && cal.Signature.Results().Len() == 1 && isErrorType(cal.Signature.Results().At(0).Type()) && buildsRex(cal, 0) {
+								okErr = true
+							}
 						}
 					}
 				}
